@@ -65,7 +65,7 @@ func c18keys() []c18key {
 		{"opc", "OPC", "string", hexAlts("E8ED289DEBA952E4283B54E88E6183CA")},
 		{"op", "OP", "string", hexAlts("E8ED289DEBA952E4283B54E88E6183CA")},
 		{"sst", "SST", "int32", []c18val{{"1", int32(1)}, {"0", int32(0)}, {"255", int32(255)}, {"2147483647", int32(2147483647)}, {"-1", int32(-1)}}},
-		{"sd", "SD", "string", []c18val{sv(`"010203"`, "010203"), sv(`"000001"`, "000001"), sv(`""`, ""), sv(`"ffffff"`, "ffffff"), sv(`'000000'`, "000000")}},
+		{"sd", "SD", "string", []c18val{sv(`"010203"`, "010203"), sv(`"000001"`, "000001"), sv(`""`, ""), sv(`"ffffff"`, "ffffff"), sv(`'000000'`, "000000"), sv(`"ABCDEF"`, "ABCDEF"), sv(`"00007b"`, "00007b"), sv(`"0a0B0c"`, "0a0B0c")}},
 		{"downlink_iface", "DLIface", "string", []c18val{sv(`"enp0s8"`, "enp0s8"), sv("eth0", "eth0"), sv(`""`, ""), sv(`"lo"`, "lo"), sv(`"$USER"`, "$USER"), sv(`"if${HOME}"`, "if${HOME}")}},
 		{"uplink_iface", "ULIface", "string", []c18val{sv(`"enp0s9"`, "enp0s9"), sv("eth1", "eth1"), sv(`""`, ""), sv(`"lo"`, "lo")}},
 		{"ue_number", "UeNumber", "int", cnt(1)},
@@ -157,7 +157,7 @@ func runC18(ctx *Ctx) {
 	wire := explore.Explore(explore.Config{Bound: bound, Workers: Workers(), Deadline: time.Now().Add(4 * time.Minute)}, func(c *explore.Chooser, w int) {
 		emu, acfg := n2config(c)
 		sst := []int{1, 2, 255}[c.Pick("sst", 3)]
-		sd := []string{"010203", "000001", "ffffff"}[c.Pick("sd", 3)]
+		sd := []string{"010203", "000001", "ffffff", "ABCDEF", "00007B", "0a0B0c"}[c.Pick("sd", 6)] // (hexadecimal digits in either case: TS 29.571)
 		gtp := []string{"192.168.61.3", "10.0.0.1", "255.255.255.255", "1.2.3.4"}[c.Pick("gnb_gtp_ip", 4)]
 		emu.SST, emu.SD, emu.GnbGtpIP = sst, sd, gtp
 		acfg.SST, acfg.SD = byte(sst), hx(sd)
